@@ -4,7 +4,7 @@ use super::verif_simd_models::*;
 
 // C14-C: position renormalisation: the scalar path (the only one in no_std builds and for unaligned prefixes/suffixes)
 // and every SIMD lane compute the same value for EVERY i32 position and offset.
-//@ {"name":"c14c_normalize_scalar_vs_simd_lanes","props":["C14","C13"],"obligation":"C14-C","timeout":900,"functions":["lz::lz_encoder::LZEncoder::normalize","lz::lz_encoder::normalize_scalar","lz::lz_encoder::normalize_avx2 (lane model, lowered)","lz::lz_encoder::normalize_sse41 (lane model, lowered)","lz::lz_encoder::normalize_neon (lane model, lowered)"],"bounds":"8 arbitrary i32 positions, any i32 offset (full width); unwind 10","assumes":["lane models are the lowering of the current SIMD source text, validated natively against real AVX2/SSE4.1 on each run"]}
+//@ {"name":"c14c_normalize_scalar_vs_simd_lanes","props":["C13","C14"],"obligation":"C14-C","timeout":900,"functions":["lz::lz_encoder::LZEncoder::normalize","lz::lz_encoder::normalize_scalar","lz::lz_encoder::normalize_avx2 (lane model, lowered)","lz::lz_encoder::normalize_sse41 (lane model, lowered)","lz::lz_encoder::normalize_neon (lane model, lowered)"],"bounds":"8 arbitrary i32 positions, any i32 offset (full width); unwind 10","assumes":["lane models are the lowering of the current SIMD source text, validated natively against real AVX2/SSE4.1 on each run"]}
 #[kani::proof]
 #[kani::unwind(10)]
 fn c14c_normalize_scalar_vs_simd_lanes() {
